@@ -9,7 +9,12 @@ Two halves, as in DESIGN.md §4 C17.
 * **Site table.** `Gen.EvalSites.sites` (REGENERATED from /repo on every run by `harness/translators/evalsites.py`)
   lists every reference in non-test code to an executing / importing / deserialising / process / network /
   file-system-changing API, with a syntactic kind and a digest that covers the call, its guards and one hop of
-  data flow into its arguments.  `all_sites_safe`: each of them is literal-only evaluation, safe YAML, an import of a
+  data flow into its arguments (guards = enclosing `if` / conditional-expression tests with the arm taken and
+  enclosing `try` / `except` clauses).  Project functions that hand one of their parameters to a dynamic import or
+  to `eval` / `exec` / `compile` (`get_module`, `get_parser`, `get_emitter`, `sync_property`, …, found to a fixpoint
+  over all non-test modules) are treated as primitives too: every call of such a wrapper is a site of its own
+  (kinds 10–12), so a new call `get_module(<user-supplied string>)` stops the theorems until it is classified.
+  `all_sites_safe`: each of them is literal-only evaluation, safe YAML, an import of a
   constant name, serialise-only — or one of the reviewed entries of `registry` (package-internal import built from a
   closed set of constants; the explicit opt-ins `--input-eval` / `--prepend` / the module named on the command line;
   a write to the named output; **the** doc-derived `eval(typ)` site).  A new or changed eval / exec / compile /
@@ -41,7 +46,7 @@ deriving DecidableEq, Repr
 /-- digest → reviewed class (digests as printed in `Gen/EvalSites.lean`) -/
 def registry : List (Nat × Cls × String) := [
   -- eval / exec / compile
-  (631633567557670353,  .docEval,     "docstring_parsers.__set_name_and_type_handle_doc_in_param: eval(typ, globals(), locals()) with typ = parse_adhoc_doc_for_typ(doc, name, …), inside `if typ is not None`"),
+  (904511295061205200,  .docEval,     "docstring_parsers.__set_name_and_type_handle_doc_in_param: eval(typ, globals(), locals()) with typ = parse_adhoc_doc_for_typ(doc, name, …), inside `if typ is not None` and `try … except (NameError, SyntaxError, TypeError)`"),
   (419226762936119557,  .optIn,       "sync_properties.sync_property: eval(compile(input_ast …)) under `if input_eval:` (--input-eval, named in the property statement)"),
   (703580218774042830,  .optIn,       "sync_properties.sync_property: the compile(...) inside the same --input-eval call"),
   (962966622568163445,  .optIn,       "gen.gen: eval(compile(<Import/ImportFrom statements of --prepend>)) under `imports_from_file is not None` and `if prepend:`"),
@@ -49,7 +54,23 @@ def registry : List (Nat × Cls × String) := [
   -- computed imports
   (397752379707587966,  .constImport, "emitter_utils.get_emitter: import_module('cdd.' + <emit kind> + '.emit'); first and last component constant"),
   (953062911183832741,  .constImport, "parser_utils.get_parser: import_module('cdd.' + <parse kind> + '.parse'); kind = CLI choice or a constant returned by infer()"),
-  (959887206526020260,  .optIn,       "pure_utils.get_module(name): imports the module the user named (gen --input-mapping <module path> / --imports-from-file); not reached by gen-from-file"),
+  (199422300640176626,  .optIn,       "pure_utils.get_module(name): imports the module the user named (gen --input-mapping <module path> / --imports-from-file); not reached by gen-from-file"),
+  -- calls of project wrappers around the dynamic imports / evals above (followed to a fixpoint by the translator)
+  (236036088719371183,  .optIn,       "gen.gen: get_module(imports_from_file) — only in the else-arm of `imports_from_file if path.isfile(imports_from_file) else …`: a file is read, a module name is imported"),
+  (77728237741621909,   .optIn,       "gen.gen: get_module(module_path) — only when --input-mapping is neither a file nor a directory (the module the user named)"),
+  (861852664232573750,  .constImport, "gen.gen: get_input_mapping_from_path(emit_name, …) → get_parser(node, emit_name): package-internal cdd.<kind>.parse; the module file is found by find_spec and read, not imported"),
+  (769071813748835556,  .constImport, "gen.gen: get_emitter(emit_name) — cdd.<kind>.emit"),
+  (856843680685029960,  .constImport, "gen.gen: get_parser(node, parse_name) — cdd.<kind>.parse"),
+  (962956112560632281,  .constImport, "gen.gen: gen_file(…, parse_name, emit_name, …) → gen_module → get_functions_and_classes → get_parser / get_emitter"),
+  (124656298132792397,  .constImport, "gen_utils.gen_file: gen_module(…)"),
+  (570205774772033572,  .constImport, "gen_utils.gen_module: get_functions_and_classes(…)"),
+  (45487623017029547,   .constImport, "gen_utils.get_functions_and_classes: get_emitter(emit_name)"),
+  (922219211655422391,  .constImport, "gen_utils.get_functions_and_classes: get_parser(obj, parse_name)"),
+  (183982316921311690,  .constImport, "gen_utils.get_input_mapping_from_path: get_parser(node, emit_name)"),
+  (594773850504973175,  .constImport, "exmod_utils.emit_files_from_module_and_return_imports: get_parser(node, 'infer')"),
+  (1021481801790532794, .optIn,       "__main__.main: gen(**args_dict) — the CLI dispatch of `gen` (reaches get_module only as registered above)"),
+  (964822969558659248,  .optIn,       "sync_properties.sync_properties: sync_property(input_eval, …) — evaluates only under --input-eval (registered above)"),
+  (82060762181923770,   .optIn,       "__main__.main: sync_properties(**args_dict) — the CLI dispatch of `sync_properties`"),
   -- writes
   (1140940052290356636, .outputWrite, "doctrans: open(filename, 'wt') — the file being converted, edited in place"),
   (541406605064532682,  .outputWrite, "emit/file.py file(node, filename, mode): open(filename, mode) — the named output; callers pass 'wt' / 'a'"),
@@ -79,10 +100,13 @@ def allowed : Nat → Cls → Bool
   | 4, .optIn => true | 4, .docEval => true              -- eval-exec
   | 6, .outputWrite => true                              -- fs-write
   | 7, .outputWrite => true | 7, .readOnly => true       -- fs-write with a non-constant mode
+  | 10, .constImport => true | 10, .optIn => true        -- call of a project wrapper around a dynamic import
+  | 11, .optIn => true                                   -- call of a project wrapper around eval / exec / compile
   | _, _ => false
 
 /-- a site is safe when its kind is safe by syntax (0 literal-eval, 1 safe YAML, 2 constant import, 5 serialise-only) or when
-    it is a registered, reviewed site of a class its kind admits; kinds 8 (destructive) and 9 (unsafe) are never safe -/
+    it is a registered, reviewed site of a class its kind admits; kinds 8 (destructive), 9 (unsafe) and 12 (call of a project
+    wrapper around an unsafe primitive) are never safe -/
 def siteSafe (s : Nat × Nat) : Bool :=
   s.2 == 0 || s.2 == 1 || s.2 == 2 || s.2 == 5 ||
   (match lookup s.1 with | some c => allowed s.2 c | none => false)
@@ -101,7 +125,7 @@ theorem doc_eval_unique :
     (Gen.EvalSites.sites.filter (fun s => s.2 == 4)).length = 5 := by decide
 
 /-- no site of the table is a process / network / unpickling / unsafe-YAML / destructive one -/
-theorem no_unsafe_sites : Gen.EvalSites.sites.all (fun s => s.2 != 8 && s.2 != 9) = true := by decide
+theorem no_unsafe_sites : Gen.EvalSites.sites.all (fun s => s.2 != 8 && s.2 != 9 && s.2 != 12) = true := by decide
 
 /-! ## 2. the argument of the doc-derived `eval` -/
 
